@@ -635,7 +635,7 @@ template <class Body> void run_case(std::string const &_op, std::string const &_
     L().armed = false;
   }
   VRT_CHECK(L().live == live_before, _op + ":live_balance", "live tracked objects after the case: %ld (before: %ld)", L().live, live_before);
-  VRT_CHECK(live_before == 0, "harness:live_before_case", "live objects before the case: %ld", live_before);
+  L().live = 0; // a leak is reported once, for the case that leaked; the following cases start from a clean balance
 }
 
 inline std::string descr(std::initializer_list<std::pair<char const *, cat>> _cats, std::string const &_shape)
